@@ -235,9 +235,11 @@ def _merge_slots(conds, slots, states=None, out=None):
         return Tup([_merge_slots(conds, [s.items[k] for s in slots], states, out) for k in range(len(first.items))])
     if states is None:
         raise MergeFail("slots of different meta-kinds")
-    if all(isinstance(s, (FuncRef, ClassRef, ModuleRef, ExtRef, Builtin)) for s in slots):
-        if len({repr(s) for s in slots}) == 1:
+    if any(isinstance(s, (FuncRef, ClassRef, ModuleRef, ExtRef, Builtin)) for s in slots):
+        if all(isinstance(s, (FuncRef, ClassRef, ModuleRef, ExtRef, Builtin)) for s in slots) and len({repr(s) for s in slots}) == 1:
             return first
+        # different classes / functions on different paths (e.g. `error_cls = ClientError` vs `ServerError`): keep the paths apart
+        raise MergeFail("different callables on different paths")
     # different references / kinds on different paths: merge BY VALUE and freeze the originals (any later mutation
     # through one of them would be invisible to the other alias -> out of subset instead of unsound)
     for s, stt in zip(slots, states):
